@@ -134,6 +134,12 @@ fn run_batch(dir: &std::path::PathBuf, cases: &[Case], claims: &[Claim]) -> Resu
     Ok((res, failing))
 }
 
+/// builds the dependency graph of the DER runner workspace
+pub fn warm() -> Result<(), String> {
+    let dir = std::path::PathBuf::from(format!("{VERIF_DIR}/gen-ws/c03der"));
+    c01::check_and_run(&dir, &[], &|_| format!("{RUNNER}fn main() {{}}\n")).map(|_| ())
+}
+
 pub fn run(ctx: &Ctx, rep: &mut Report) {
     let want = ctx.pick(40usize, 600);
     let batch = ctx.pick(40usize, 150);
@@ -183,11 +189,13 @@ pub fn run(ctx: &Ctx, rep: &mut Report) {
                     let (kind, detail) = r.split_once('|').unwrap_or((r.as_str(), ""));
                     let sig = format!("c03|der-{kind}|default={tagging}|{}", if kind == "reencode-differs" { String::new() } else { err_class(detail) });
                     let known = findings.known.contains_key(&("C03".to_string(), sig.clone()));
-                    let wit = if !known && shrunk.insert(sig.clone()) { Some(shrink(&dir, case, cl, kind)) } else { None };
+                    let want_class = if kind == "reencode-differs" { String::new() } else { err_class(detail) };
+                    let wit = if !known && shrunk.insert(sig.clone()) { Some(shrink(&dir, case, cl, kind, &want_class)) } else { None };
                     rep.violations.push(Violation {
                         sig,
                         what: format!("{}.{} (variant {}): model DER {} -> {} [{}] :: {}", cl.module, cl.ty, cl.variant, cl.hex, one_line(r, 160), case.origin, one_line(wit.as_deref().unwrap_or(&case.set.render().text), 500)),
-                        replay: json!({"origin": case.origin, "asn1": case.set.render().text, "minimised": wit, "type": cl.ty, "module": cl.module, "model_der": cl.hex, "result": r}),
+                        replay: json!({"origin": case.origin, "asn1": case.set.render().text, "minimised": wit, "type": cl.ty, "module": cl.module, "model_der": cl.hex, "result": r,
+                            "generated_items": crate::proj::project(&case.text).ok().map(|ms| ms.iter().flat_map(|m| m.items.iter().filter(|i| i.name.contains(&cl.ty)).map(|i| i.text.clone()).collect::<Vec<_>>()).collect::<Vec<_>>())}),
                     });
                 }
             }
@@ -199,7 +207,7 @@ pub fn run(ctx: &Ctx, rep: &mut Report) {
 }
 
 /// minimise a failing set with the runner in the loop (same failure kind for the same type name)
-fn shrink(dir: &std::path::PathBuf, case: &Case, cl: &Claim, kind: &str) -> String {
+fn shrink(dir: &std::path::PathBuf, case: &Case, cl: &Claim, kind: &str, want_class: &str) -> String {
     let cfg = Cfg::default_cfg();
     let steps = std::cell::Cell::new(0usize);
     let m = gen::shrink(&case.set, &|s| {
@@ -222,7 +230,13 @@ fn shrink(dir: &std::path::PathBuf, case: &Case, cl: &Claim, kind: &str) -> Stri
         }
         let one = Case { n: 0, set: s.clone(), text: generated, origin: String::new() };
         match run_batch(dir, std::slice::from_ref(&one), &claims) {
-            Ok((res, failing)) => failing.is_empty() && res.values().any(|r| r.starts_with(kind)),
+            Ok((res, failing)) => {
+                failing.is_empty()
+                    && res.values().any(|r| {
+                        let (k, d) = r.split_once('|').unwrap_or((r.as_str(), ""));
+                        k == kind && (kind == "reencode-differs" || err_class(d) == want_class)
+                    })
+            }
             Err(_) => false,
         }
     });
